@@ -68,6 +68,20 @@ def gen_ops(tier, rng):
         p = rng.randint(1, 8)
         E = sorted(rng.sample(range(d + p), rng.randint(0, min(p + 1, d + p))))
         add(fam, rng.choice(OPTSETS), d, p, rng.choice([1, 8, 33, 64, 100]), rng.choice(["all", "data"]), E, [], "nil", "nonmds")
+    # sequences of reconstructions on ONE encoder (the inverted-matrix cache takes part): every answer must still be
+    # the original bytes.  Biased towards neighbouring erasure sets visited in both orders.
+    from . import c10
+    for _ in range(250 if tier == "quick" else 5000):
+        fam = rng.choice(MDS_FAMS)
+        d = rng.randint(2, 12); p = rng.randint(2, 6); n = d + p
+        subs = []
+        base = sorted(rng.sample(range(n), rng.randint(2, p)))
+        variants = [base, base[:1] + [min(n - 1, x + 1) for x in base[1:]], base[:1] + [max(0, x - 1) for x in base[1:]], base[:-1]]
+        variants = [v for v in variants if v == sorted(set(v)) and v]
+        for _ in range(rng.randint(3, 8)):
+            E = rng.choice(variants) if rng.random() < 0.8 else sorted(rng.sample(range(n), rng.randint(1, p)))
+            subs.append(c10.sub_r(rng, d, p, rng.choice([1, 10, 64, 100]), E))
+        ops.append((f"hist {fam} {rng.choice(['-', '-', 'nosimd'])} {d} {p} ; " + " ; ".join(subs), {"cat": "sequence", "E": 1}))
     return ops
 
 
